@@ -59,6 +59,26 @@ CHECKS = {
  "C37": dict(cat="exploration", tech="TLA+ trace validation (TLC, Trace_Args): a generated catalogue of invalid/stale/foreign/extreme arguments for every public read, edit, historical read and head-taking call, executed on replicas reached by random programs; plus the no-panic predicate over every event of the 24 other scenario families",
    text="Each bad call is logged with the class of its argument as the generator knows it; the trace spec requires no panic ever, an error or empty result for invalid arguments, a still loadable document, and acceptance of the library's own patches by hydrate::Value::apply_patches.", ref="§6 C37",
    note="assumes: panics are observed with catch_unwind in a build with debug assertions and overflow checks on (the repository's test profile); aborts would surface as tool errors; the catalogue is finite (about 700 calls per replica), not all argument combinations"),
+ "C15": dict(cat="fault_enumeration", tech="Mutation vectors (structure-aware, checksum recomputed) on real encodings executed in isolated child processes, outcomes validated by the TLA+ trace spec Trace_Wire; Bloom filter field vectors enumerated exhaustively from Wire.tla with the parser's predicted decision",
+   text="Every entry point of the property (load, load_incremental, rescue, Change::from_bytes, Message/State::decode + processing, Bundle, BloomFilter/Cursor/ObjId::try_from, string parsers, import) is fed mutated documents, changes, bundles, messages, states, filters, ids; a panic, abort or hang is a violation. 14 classes of panics in the document/change/bundle decoders are listed known findings (by source file of the panic); anything else is reported.", ref="§5a, §6 C15", note="assumes: panics are caught with catch_unwind in a build with debug assertions and overflow checks; aborts and hangs are observed through process isolation (child workers, 10 s watchdog); positions are sampled (all header positions + a seeded sample), histories are sampled; the TLA+ contribution is the contract (Trace_Wire) and, for Bloom filters, the full field-vector space with the parser's decision (Wire.tla) - inside column payloads the specification only names where and how to corrupt"),
+ "C16": dict(cat="fault_enumeration", tech="Same campaign; Trace_Wire requires every ACCEPTED input to pass the consistency probe (all reads incl. historical, save->load equal, edit+commit+reload, merge with the original converges)",
+   text="Accepted mutated documents / changes / bundles must behave like valid documents. Two classes are listed known findings (altered compressed change accepted; contradictory ops stored as they are).", ref="§5a, §6 C16", note="assumes: panics are caught with catch_unwind in a build with debug assertions and overflow checks; aborts and hangs are observed through process isolation (child workers, 10 s watchdog); positions are sampled (all header positions + a seeded sample), histories are sampled; the TLA+ contribution is the contract (Trace_Wire) and, for Bloom filters, the full field-vector space with the parser's decision (Wire.tla) - inside column payloads the specification only names where and how to corrupt"),
+ "C17": dict(cat="fault_enumeration", tech="Same campaign and the Wire.tla Bloom vectors under a counting global allocator (requests >= 2 GiB refused) and a watchdog; Trace_Wire WithinBudget: peak <= 32 MiB + 64 KiB/byte, request <= 64 MiB, 5 s",
+   text="Length, count and parameter fields set to 0, 1, 127, 128, 65535, 2^32-1, 2^32, 2^63, 2^64-1 at sampled and all header positions of inputs below 4 KiB. Known findings: bundle count fields, inflation of a compressed change.", ref="§5a, §6 C17", note="assumes: panics are caught with catch_unwind in a build with debug assertions and overflow checks; aborts and hangs are observed through process isolation (child workers, 10 s watchdog); positions are sampled (all header positions + a seeded sample), histories are sampled; the TLA+ contribution is the contract (Trace_Wire) and, for Bloom filters, the full field-vector space with the parser's decision (Wire.tla) - inside column payloads the specification only names where and how to corrupt"),
+ "C39": dict(cat="fault_enumeration", tech="Same campaign with invalid UTF-8 planted at sampled positions of string-bearing encodings (checksum recomputed); Trace_Wire requires every string handed out by an accepted document to re-validate as UTF-8",
+   text="Map keys, string values, text, mark names/values, spans and change messages of every accepted mutated input are re-validated on their raw bytes.", ref="§5a, §6 C39", note="assumes: panics are caught with catch_unwind in a build with debug assertions and overflow checks; aborts and hangs are observed through process isolation (child workers, 10 s watchdog); positions are sampled (all header positions + a seeded sample), histories are sampled; the TLA+ contribution is the contract (Trace_Wire) and, for Bloom filters, the full field-vector space with the parser's decision (Wire.tla) - inside column payloads the specification only names where and how to corrupt"),
+ "C23": dict(cat="fault_enumeration", tech="Wire.tla enumerates every Bloom filter field vector (10 symbolic values per field x 5 byte-availability classes) with the decision the parser must take; replayed on BloomFilter::try_from + contains_hash in isolated processes; Trace_Wire: verdicts equal, queries return, no false negatives for built/decoded filters",
+   text="Exhaustive over the token space; hash sets of sizes 0..5000 incl. adversarial ones; the filters exchanged in the sync replays are compared with the model's membership by C20-C22.", ref="§5a, §6 C23", note="assumes: the token alphabet {0,1,2,7,8,10,300,65536,2^32-1,2^32} covers the parser's case distinctions; aborts/hangs observed through process isolation"),
+ "C18": dict(cat="model_checking", tech="TLA+ trace validation (Trace_Wire ChgRT) of raw / compressed / decoded-and-re-encoded bytes of every change + TLC-generated delivery schedules (Gen_Delivery over the real DAG) whose batches are delivered as bundle chunks and replayed with the state Graph!DeliverResult predicts",
+   text="Change and bundle encodings: byte identity observed by digest/byte comparison; bundle semantics = delivery of the same set (including duplicates and causally open sets).", ref="§5a, §6 C18"),
+ "C19": dict(cat="model_checking", tech="TLA+ trace validation: Trace_Wire (IdRT, SyncRT round trips) + Trace_Interp (IdProbe: decoded ids on replicas with different actor tables; Curs: cursors resolved on other replicas)",
+   text="Ids, cursors, actor ids, hashes, every message and both states of generated sync sessions; resolution across replicas whose actor tables differ.", ref="§5a, §6 C19"),
+ "C34": dict(cat="model_checking", tech="HexColumn.tla (a column is a sequence; derived reads defined on it; design invariants PrefixMonotone, IftInverse) - TLC-generated edit programs replayed on 9 column types x 4 segment limits with every read compared after every step",
+   text="Programs of insert/push/splice/remove/remove_n/truncate/clear/save+load over {null,0,1,5} with runs; contents, get, iter_range over all ranges, runs, prefix sums, sum_range, get_index_for_total, find_by_value/find_first.", ref="§5a, §6 C34", note="assumes: TLC simulation (random prefixes x all last steps), not exhaustive; value mapping per type in hexrun.rs"),
+ "C35": dict(cat="fault_enumeration", tech="Save/load identity on every state of the HexColumn.tla programs + byte campaign (every position of real encodings x 7 mutations, hand-made extreme run headers, random strings) over 15 load functions, outcomes validated by Trace_Wire HexBad",
+   text="Loading arbitrary bytes must give a column or an error; a column that loads must save to bytes that load to the same values.", ref="§5a, §6 C35", note="assumes: panics caught by catch_unwind; comparison of loaded columns by length and canonical bytes (run-length encoded columns can be astronomically long)"),
+ "C32": dict(cat="model_checking", tech="TLA+ trace validation (Trace_Interp Serde): serde_json image of AutoSerde = OpSet-derived image of the current state (winners only, text as strings) + a serde Serializer that enforces announced lengths",
+   text="Histories with nested maps, lists, text, conflicts and counters serialised on every replica.", ref="§5a"),
 }
 
 NA_REASON = "check not built yet in this session (framework under construction; see DESIGN.md §10 build order)"
